@@ -10,7 +10,7 @@ On break: harness `oracle` evaluates the property's clauses directly on the real
 import os
 
 THEOREMS = ["IstioModel.C02.Theorems", "IstioModel.C02.QueueTheorems", "IstioModel.C02.QueueRefinement",
-            "IstioModel.C02.DebounceTheorems", "IstioModel.C02.SenderTheorems"]
+            "IstioModel.C02.DebounceTheorems", "IstioModel.C02.SenderTheorems", "IstioModel.C02.PipeTheorems"]
 STREAMS = ("merge", "queue", "debounce", "sender", "server")
 
 
@@ -302,8 +302,12 @@ def run(ctx):
                 "chains through the previous result, both bracketings of a triple; "
                 "queue: 1-4 connections, 3-80 Enqueue/Dequeue/MarkDone/ShutDown/Pending ops on a real PushQueue (a third of the enqueues "
                 "hand one shared request to every connection), drained at the end; "
-                "debounce: 1-7 sends with sleeps around the quiet period and a held pushFn (40% of cases put sends inside a running push); "
-                "sender: real doSendPushes, semaphore capacity 1-3, 1-3 connections, enq/deliver/pushdone/close/stop/shut in any order; "
+                "debounce: 1-7 sends (some with a snapshot, some endpoints-only with EDS debounce off) with sleeps around the quiet period and a "
+                "held pushFn (40% of cases put sends inside a running push); the observed event trace must be accepted as a run of the model; "
+                "sender: real doSendPushes, semaphore capacity 1-3, 1-4 connections (odd ids delta), enq/deliver/pushdone/close/stop/shut in any "
+                "order, rarely a nil request; "
+                "server: a real DiscoveryServer, 1-6 real stream loops (SotW and delta), bursts of ConfigUpdate, a connection parked between "
+                "addCon and MarkInitialized, Send failing, Send blocking, clients leaving (idle, blocked, parked mid-initialisation); "
                 "stress: 8 producers x 4 workers on one real queue; "
                 "distinct = hash of (ops, implementation outputs); non-trivial = at least one op")
     ctx.assumptions = [
@@ -313,6 +317,13 @@ def run(ctx):
         "every request handed to PushQueue.Enqueue carries a snapshot (Push != nil): true for Push/AdsPushAll/ProxyUpdate, the only "
         "callers; without it CopyMerge forgets the older snapshot (copyMerge_push_nil_witness)",
         "only doSendPushes calls Dequeue and only its three exit paths (through done()) call MarkDone",
+        "'newest snapshot' means the snapshot of the request enqueued last on that connection; it is the newest one because the Push calls "
+        "(each runs StartPush synchronously) do not overlap: proved for the debounced path (debounced_pushes_sequential); with "
+        "PILOT_ENABLE_EDS_DEBOUNCE=false (not the default) the bypass Push can overlap another Push (eds_bypass_overlap_witness) and "
+        "different connections may then be offered two requests in different orders",
+        "nobody enqueues a nil request (it would crash doSendPushes: nil_enqueue_crashes_witness; sender_never_crashes otherwise)",
+        "pipeline_no_loss is stated for the connections registered from the start (unregistering allowed); a connection registering "
+        "later, incl. the addCon-before-MarkInitialized window, is covered by the real-server stream only",
         "liveness beyond 'an enabled releasing exit always exists' (Go scheduler fairness, timers eventually firing, pushFn / "
         "pushConnection returning, a closed gRPC stream cancelling its context) is assumed",
     ]
@@ -321,7 +332,11 @@ def run(ctx):
         return
     if not ctx.go_build():
         return
-    ctx.trusted.append("pilot/pkg/xds/zz_verif_c02.go (verif-tagged read-only snapshot of PushQueue tables; entry points to debounce / doSendPushes)")
+    ctx.trusted.append("pilot/pkg/xds/zz_verif_c02.go (verif-tagged read-only snapshot of PushQueue tables / semaphore / push channel; entry "
+                       "points to debounce / doSendPushes)")
+    ctx.trusted.append("pilot/pkg/xds/zz_verif_c04.go (VerifNewConnection / VerifNewDeltaConnection: bare connections used as queue keys)")
+    ctx.trusted.append("pilot/pkg/xds/zz_verif_e2e.go (gate at 'init:after-addcon' used to park a connection mid-initialisation); "
+                       "DiscoveryServer.ProxyNeedsPush (public field) wrapped to observe Event.pushRequest per connection")
     robust(ctx, ctx.diff_stream, "merge", ctx.n(4000, 100000), oracle=oracle)
     robust(ctx, ctx.diff_stream, "queue", ctx.n(1500, 40000), oracle=oracle)
     # real timers / goroutines: only schedule-independent facts are compared (see harness/c02/debounce.go,
@@ -366,20 +381,26 @@ def replay(ctx, path):
 
 MANIFEST = {
     "level_text": ("Lean 4 proof over exact executable models of PushRequest.Merge/CopyMerge (heap with object identities and aliasing), "
-                   "PushQueue (Enqueue/Dequeue/MarkDone/ShutDown), the debounce loop (transition system with explicit clock) and "
-                   "doSendPushes with its done() exits. Proved for all inputs / operation sequences / event schedules: merged keys = union, "
-                   "forced = or, newest snapshot, reason counts add, associativity, CopyMerge and every queue operation never write to an "
-                   "existing object; queue invariants, refinement to a per-connection mailbox spec, no_loss, isolation, one push in flight, "
-                   "FIFO, redelivery after MarkDone; debounce_no_loss, single flight, wake-up, committed count, no deadlock; semaphore "
-                   "balance, MarkDone exactly once per hand-out, no orphaned processing entry, every flight has a releasing exit. "
-                   "Models tied to /repo on every run by line-by-line differential runs against the real functions."),
+                   "PushQueue, the debounce loop (transition system with explicit clock), doSendPushes with its done() exits, and their "
+                   "composition from ConfigUpdate to Event.pushRequest (Pipe). Proved for all inputs / operation sequences / event "
+                   "schedules: merged keys = union, forced = or, newest snapshot, reason counts add, associativity, CopyMerge and every "
+                   "queue operation never write to an existing object; queue invariants, refinement to a per-connection mailbox, no_loss, "
+                   "isolation, one push in flight, FIFO, redelivery after MarkDone; debounce_no_loss, single flight, sequential pushes, "
+                   "wake-up, committed count, no deadlock; semaphore balance, MarkDone exactly once, no orphaned processing entry, every "
+                   "flight has a releasing exit, no crash without a nil request; pipeline_no_loss: every fact of every accepted "
+                   "notification is, for every connection registered from the start, in the channel / pending / being pushed / waiting in "
+                   "the queue / parked / received by its stream loop / given up only for a closed stream or a stopping server. "
+                   "Tied to /repo on every run by differential runs against the real functions, incl. a real DiscoveryServer with real "
+                   "stream loops (done() after a failing Send, AllClients incl. connections mid-initialisation, delta and SotW)."),
     "level_note": ("Trusted: Lean kernel + {propext, Classical.choice, Quot.sound}; the hand-written models (tied by differential testing: "
-                   "~4000 merge, ~1500 queue cases exactly incl. object identities; debounce and doSendPushes run on real timers/goroutines "
-                   "and are compared only on schedule-independent facts - union of keys, forced, committed count, single flight, state at "
-                   "rest - ~120 cases each quick); hook file pilot/pkg/xds/zz_verif_c02.go. Assumed, not proved: atomicity of the queue "
-                   "methods under their mutex (stress-tested), scheduler/timer fairness for liveness, callers not writing to a request "
-                   "after hand-off, Push != nil on every enqueued request. Not modelled: the path ConfigUpdate -> pushChannel and "
-                   "Push -> AdsPushAll -> StartPush (which connections are enumerated), pushConnection itself, gRPC."),
-    "technique": "Lean 4 theorems (invariants, refinement, induction over histories) over exact models + differential correspondence with the real Go functions",
+                   "merge and queue exactly incl. object identities; debounce by trace acceptance - the observed event trace must be a run of "
+                   "the model - plus schedule-independent facts; doSendPushes and the real server at rest); hook files zz_verif_c02.go, "
+                   "zz_verif_c04.go, zz_verif_e2e.go (gate). Assumed, not proved: atomicity of the queue methods under their mutex "
+                   "(stress-tested), scheduler/timer fairness for liveness, callers not writing to a request after hand-off, Push != nil and "
+                   "request != nil on Enqueue, Push calls not overlapping (false with EDS debounce switched off). Gaps: the composed theorem "
+                   "covers connections registered from the start only (later registration: tie only); pushConnection itself and gRPC are "
+                   "not modelled (the stream loop is 'receive event, then done()'); a full push channel (ConfigUpdate blocks) is modelled "
+                   "but a ConfigUpdate that drops on a full channel would not be caught by the tie."),
+    "technique": "Lean 4 theorems (invariants, refinement, induction over histories, composition) over exact models + differential correspondence incl. trace acceptance against the real Go code",
     "design_ref": "DESIGN.md section 5 C02",
 }
